@@ -20,7 +20,16 @@ Normalisations the oracle applies (and nothing else):
   * date: the returned ISO string is parsed and compared *as an instant* with the Date: header; a naive
     result is read as UTC (what ``parsedate_to_datetime`` yields for ``-0000``);
   * bodies: CRLF == LF (the line terminator is transport), trailing newlines ignored, and for the mbox carrier
-    the body may carry the '>' that the harness's own mboxrd writer put before ``From `` lines;
+    the body may carry the '>' that the harness's own mailbox writer put before ``From `` lines.  A message with
+    several inline text parts of one subtype (list footer, gateway disclaimer next to the body) has two admitted
+    readings of "the body": its first such part (the documented rule of the .mbox reader) or all of them in document
+    order (what the .eml reader returns) - a later part alone, or another order, is neither;
+  * mailbox boundaries: "boundaries only at separator lines" is a statement about the reader, and a separator line is
+    ``From <sender> <date>`` under every mbox definition.  Two thirds of the mailboxes are mboxrd (every ^>*From(blank)
+    line quoted); one third quote look-alikes only - a From line that *ends in four digits* is quoted (a reader without
+    a quoting convention cannot tell it from a separator: the library's documented limitation, never asserted here),
+    every other line that starts with "From " stays as it is (what mboxcl/mboxcl2 writers and home-grown exporters
+    leave behind) and must stay body: "From here on, the 2024 figures are final." is not a separator line;
   * attachments: filename, type and bytes exact; for 7bit/8bit (not base64/QP) text parts the line terminator
     is transport as well.  Inline ``multipart/related`` parts and a message carried without any Content-Disposition
     (forwarded inline) may be reported as attachments or not — when they are, they must be exact; the carried
@@ -68,8 +77,9 @@ split on ','; separator regex unanchored / case-insensitive / accepting '>From';
 base64-decoded; cc/bcc swapped; date offset dropped; body charset ignored; supported attachment fed the first
 attachment's bytes; Subject white space collapsed with split/join in EmailContent (eml + mbox: subject-interior-white-
 space-altered), display names collapsed in EmailAddress, tabs turned into blanks by the mbox header decoder — all
-reported as VIOLATION.  "Separator regex without the year" is equivalent on the
-property's domain (mboxrd-escaped mailboxes contain no unescaped ``From `` line) and is, correctly, not reported.
+reported as VIOLATION.  "Separator regex without the year" / "with anything after
+the year" cut messages at the unquoted non-separator From lines of the look-alikes-only mailboxes and are reported
+(they were equivalent as long as every mailbox was mboxrd-quoted).
 """
 from __future__ import annotations
 
@@ -225,8 +235,8 @@ def _body(s) -> str:
     return s.replace("\r\n", "\n").rstrip("\n") if isinstance(s, str) else repr(s)
 
 
-def _mboxrd_escaped(b: bytes) -> bytes:
-    return b"\n".join((b">" + ln) if G._FROM_ESC.match(ln) else ln for ln in b.split(b"\n"))
+def _mboxrd_escaped(b: bytes, style: str = "mboxrd") -> bytes:
+    return b"\n".join((b">" + ln) if G.needs_escape(ln, style) else ln for ln in b.split(b"\n"))
 
 
 def _blank_after_colon(b: bytes) -> bytes:
@@ -259,7 +269,8 @@ def truth_of(spec: dict) -> dict:
                      "cte": a["cte"], "kind": a["kind"], "ext": {"png": "png", "bin": "bin"}.get(a["kind"], a["kind"]), "encrypted": a["kind"] == "enc"})
     if "_subject_accept" not in spec:            # derived from the header block only; dropped whenever that is re-written (twin_of)
         spec["_subject_accept"] = G.subject_readings(G.header_probe(spec))
-    return {"subject": spec["subject"], "subject_accept": spec["_subject_accept"], "from": list(spec["from"]), "to": G.flat(spec["to"]), "cc": G.flat(spec["cc"]),
+    return {"plain_parts": G.text_parts(spec, "plain"), "html_parts": G.text_parts(spec, "html"),
+            "subject": spec["subject"], "subject_accept": spec["_subject_accept"], "from": list(spec["from"]), "to": G.flat(spec["to"]), "cc": G.flat(spec["cc"]),
             "bcc": G.flat(spec["bcc"]), "reply_to": G.flat(spec["reply_to"]), "instant": G.spec_instant(spec),
             "message_id": spec["message_id"], "plain": spec["plain"] or "", "html": spec["html"] or "", "atts": atts}
 
@@ -318,12 +329,20 @@ def compare_message(t: dict, o: dict, carrier: str) -> list[tuple[str, str, str]
         d.append(("message-id", "outer-white-space-kept" if outer else "differs", f"got {o['message_id']!r} want {t['message_id']!r}"))
     for k in ("plain", "html"):
         got, want = _body(o[k]), _body(t[k])
-        ok = got == want
-        if not ok and carrier == "mbox":
-            ok = got == _body(G.mboxrd_escape_text(t[k]))
+        parts = t[k + "_parts"]
+        # the mailbox writer's own '>' may be kept (documented): each admitted reading in each of the writer's escape styles
+        styles = [None] + (list(G.ESCAPE_STYLES) if carrier == "mbox" else [])
+        ok = False
+        for st in styles:
+            ps = [_body(p if st is None else G.escape_text(p, st)) for p in parts]
+            # the body of a message with several inline text parts of one subtype: the first of them, or all in document order
+            ok = ok or got == (ps[0] if ps else "") or (len(ps) > 1 and re.fullmatch(r"\n*".join(re.escape(p) for p in ps), got) is not None)
         if not ok:
+            want = _body(parts[0]) if parts else ""
             if not got:
                 sym = "lost"
+            elif len(parts) > 1 and any(got == _body(p) for p in parts[1:]):
+                sym = "later-part-instead-of-first"
             elif want in got:                      # includes: no such body in the message, yet text is reported
                 sym = "foreign-text-added"
             elif got in want or got.replace("\n", "") in want.replace("\n", ""):
@@ -375,7 +394,7 @@ def compare_message(t: dict, o: dict, carrier: str) -> list[tuple[str, str, str]
                 gb = core.unb64(g["head"])
                 if textual and g["sha_eol"] == core.sha(_eol(w["data"])):
                     pass                  # line terminator of a 7bit/8bit text part is transport
-                elif carrier == "mbox" and w["cte"] in ("7bit", "8bit", "quoted-printable") and g["sha_eol"] == core.sha(_eol(_mboxrd_escaped(w["data"]))):
+                elif carrier == "mbox" and w["cte"] in ("7bit", "8bit", "quoted-printable") and g["sha_eol"] in [core.sha(_eol(_mboxrd_escaped(w["data"], st))) for st in G.ESCAPE_STYLES]:
                     escaped_atts = True   # as for bodies: the '>' the harness's own mboxrd writer put before From lines may be kept (documented)
                 elif carrier == "mbox" and w["kind"] == "eml" and g["sha_eol"] != core.sha(_eol(_blank_after_colon(w["data"]))):
                     # not the one known re-serialisation ("Name:" CRLF SP value -> "Name: " CRLF SP value): other bytes than the attached message's
@@ -435,8 +454,8 @@ def compare_carriers(t: dict, e: dict, m: dict) -> list[tuple[str, str, str]]:
             continue                       # each side is one of the admitted readings of the same wire form
         if k in ("plain", "html"):
             a, b = _body(a), _body(b)
-            if a != b and _body(G.mboxrd_escape_text(a)) == b:
-                continue
+            if len(t[k + "_parts"]) > 1 or any(a != b and _body(G.escape_text(a, st)) == b for st in G.ESCAPE_STYLES):
+                continue                   # (several inline parts: "the first" and "all of them" are both admitted readings)
         if a != b:
             d.append((f"body-{k}" if k in ("plain", "html") else k.replace("_", "-"), "eml-and-mbox-disagree", f"eml {a!r:.200} mbox {b!r:.200}"))
     ia, ib = _instant(e["date"]), _instant(m["date"])
@@ -530,7 +549,8 @@ def build_case(rng, tok, fx, n_msgs: int, risky: str | None, cid: int, stats=Non
             s["auto_risky"].append("nameless-attachment")
         s["features"] = sorted(set(s["features"]) | {"risky:" + f for f in s["auto_risky"]})
     eol = rng.choice([b"\n", b"\n", b"\r\n"])
-    mb = {"eol": "CRLF" if eol == b"\r\n" else "LF", "blank_lines": rng.choice([1, 1, 1, 2]), "final_blank": rng.random() < 0.8}
+    mb = {"eol": "CRLF" if eol == b"\r\n" else "LF", "blank_lines": rng.choice([1, 1, 1, 2]), "final_blank": rng.random() < 0.8,
+          "escape": rng.choice(["mboxrd", "mboxrd", "lookalikes-only"])}
     return {"cid": cid, "specs": specs, "mbox_opts": mb, "risky": risky}
 
 
@@ -559,7 +579,7 @@ def materialise(case: dict) -> dict:
         items.append({"kind": "eml", "b64": core.b64(raw), "path": f"c16-{case['cid']}-{i}.eml", "truth_atts": [per_message[-1]]})
         index.append(("eml", i, None))
     env = envelopes(case["cid"], specs)
-    mbox, escaped = G.write_mbox(raws, env, eol, mbo["blank_lines"], mbo["final_blank"])
+    mbox, escaped = G.write_mbox(raws, env, eol, mbo["blank_lines"], mbo["final_blank"], mbo.get("escape", "mboxrd"))
     # the mailbox's messages go through iterate_supported_attachments() as well (the shared dataclass, the other reader's
     # names): every message whose attachments are nameless / typed otherwise than named / encrypted / messages, and a
     # sixth of the others (extracting every PDF and workbook a second time would double the tier's cost)
@@ -575,7 +595,7 @@ def materialise(case: dict) -> dict:
         tspecs = [tw or s for tw, s in zip(twins, specs)]
         tspecs = [G.strip_attachments(s) for s in tspecs]
         traws = [G.render_message(s) for s in tspecs]
-        tmbox, _ = G.write_mbox(traws, env, eol, mbo["blank_lines"], mbo["final_blank"])
+        tmbox, _ = G.write_mbox(traws, env, eol, mbo["blank_lines"], mbo["final_blank"], mbo.get("escape", "mboxrd"))
         items.append({"kind": "mbox", "b64": core.b64(tmbox), "path": f"c16-{case['cid']}-twin.mbox"})
         index.append(("mbox-twin", None, tspecs))
         for i, (tw, s) in enumerate(zip(twins, specs)):
@@ -587,7 +607,14 @@ def materialise(case: dict) -> dict:
                 items.append({"kind": "eml", "b64": core.b64(tr), "path": f"c16-{case['cid']}-{i}-twin.eml",
                               "truth_atts": [[{"filename": a["filename"], "ctype": a["ctype"], "sha": a["sha"], "ext": a["ext"]} for a in tt["atts"]]]})
                 index.append(("eml-twin", i, tw))
-    return {"items": items, "blobs": blobs, "index": index, "escaped": escaped, "mbox_len": len(mbox)}
+    raw_from = year_inside = 0
+    if mbo.get("escape") == "lookalikes-only":
+        for raw in raws:
+            for ln in raw.replace(b"\r\n", b"\n").split(b"\n"):
+                if ln.startswith(b"From ") and not G.needs_escape(ln, "lookalikes-only"):
+                    raw_from += 1
+                    year_inside += bool(re.search(rb"\d{4}", ln))
+    return {"items": items, "blobs": blobs, "index": index, "escaped": escaped, "mbox_len": len(mbox), "raw_from": raw_from, "year_inside": year_inside}
 
 
 def twin_of(spec: dict):
@@ -704,6 +731,10 @@ def main(run, only_cases=None):
     run.require("subject_white_space_kinds_seen", len([k for k in c if k.startswith("subject_ws_")]), len(G.SUBJECT_WS))
     run.require("subjects_with_tab_fold_compared", c.get("subjects_with_tab_fold_compared", 0), run.n(5, 100))
     run.require("mbox_supported_attachment_extractions_compared", c.get("mbox_supported_attachment_extractions_compared", 0), run.n(200, 3000))
+    run.require("messages_with_several_inline_text_parts_of_one_subtype", c.get("messages_with_several_inline_text_parts_of_one_subtype", 0), run.n(60, 900))
+    run.require("mailboxes_escaping_lookalikes_only", c.get("mailbox_escape_lookalikes-only", 0), run.n(60, 900))
+    run.require("unescaped_non_separator_from_lines_in_mailboxes", c.get("unescaped_non_separator_from_lines_in_mailboxes", 0), run.n(60, 900))
+    run.require("unescaped_from_lines_with_a_year_inside", c.get("unescaped_from_lines_with_a_year_inside", 0), run.n(15, 200))
     run.require("nested_message_variants_seen", len([k for k in c if k.startswith("nested_variant_")]), len(NESTED_VARIANTS))
     run.require("attachments_with_other_type_than_their_name_says", c.get("attachments_with_other_type_than_their_name_says", 0), run.n(100, 1500))
     run.require("type_name_mismatch_kinds_seen", len([k for k in c if k.startswith("mismatch_")]), len(G.MISMATCHED))
@@ -735,6 +766,9 @@ def judge_case(run, case, m, obs):
     run.count(f"mailbox_size_{len(specs)}")
     run.count("mailbox_eol_" + case["mbox_opts"]["eol"])
     run.count("escaped_from_lines_in_mailboxes", m["escaped"])
+    run.count("mailbox_escape_" + case["mbox_opts"].get("escape", "mboxrd"))
+    run.count("unescaped_non_separator_from_lines_in_mailboxes", m.get("raw_from", 0))
+    run.count("unescaped_from_lines_with_a_year_inside", m.get("year_inside", 0))
     items = obs["items"]
     truths = [truth_of(s) for s in specs]
     eml_obs = {}
@@ -838,7 +872,7 @@ def judge_case(run, case, m, obs):
             outcome = "differs" if (carrier, i) in dset else "exact"
             run.case(f"{carrier}|{'|'.join(sig_feats)}|{outcome}",
                      sample={"carrier": carrier, "features": s["features"], "subject": s["subject"][:60], "outcome": outcome} if run.evaluations < 4 else None)
-    run.case(f"mailbox|n={len(specs)}|{case['mbox_opts']['eol']}|blank={case['mbox_opts']['blank_lines']}|final={case['mbox_opts']['final_blank']}|"
+    run.case(f"mailbox|n={len(specs)}|{case['mbox_opts']['eol']}|blank={case['mbox_opts']['blank_lines']}|final={case['mbox_opts']['final_blank']}|{case['mbox_opts'].get('escape', 'mboxrd')}|"
              f"{'ok' if not any(d[2] == 'boundaries' for d in diffs) else 'bad'}")
 
 
@@ -865,6 +899,8 @@ def _count_message(run, spec, truth, r):
         run.count("subjects_with_interior_white_space_compared")
     if len(truth["subject_accept"]) > 1:
         run.count("subjects_with_tab_fold_compared")
+    if len(truth["plain_parts"]) > 1 or len(truth["html_parts"]) > 1:
+        run.count("messages_with_several_inline_text_parts_of_one_subtype")
     if spec.get("risky") == "nested-rfc822":
         run.count("nested_variant_" + "|".join(f for f in spec["features"] if f.startswith("nested:") and "nameless" not in f))
     for f in spec["features"]:
